@@ -157,6 +157,15 @@ func c18Explore(shard, nshards int, tier string) c18Result {
 		deadline = time.Now().Add(25 * time.Minute)
 	}
 	vals := c18Values()
+	// self-check of the observation: two snapshots with nothing in between must be identical
+	if shard == 0 {
+		g := allGlobals()
+		if snap.Hash(g, c18SnapOpts) != snap.Hash(g, c18SnapOpts) {
+			res.Violations = append(res.Violations, core.Violation{Property: "C18", Identity: "C18|harness|snapshot-not-deterministic", Detail: "two snapshots of the package-level state without any operation in between differ", Case: core.Case{Kind: "harness"}})
+			return res
+		}
+		res.Notes["package_level_variables_observed"] = int64(len(g))
+	}
 	type job struct{ vi, a, b, c int }
 	type opInfo struct {
 		solo    string
